@@ -27,11 +27,10 @@ def offset_of(st):
 
 
 def charac(P, idx, q, u0, size, n):
-    """sample q selects the first index whose cumulative weight reaches its comb position;
-    the last index absorbs a cumulative deficit (only possible when sum(w) < position)."""
+    """sample q selects the first index whose cumulative weight reaches its comb position: P(i-1) < pos_q <= P(i).
+    No escape clause for the last index: the weights the comb runs over sum to one, so every position (< 1) has its cell."""
     iq = idx.at(q)
-    return z3.And(z3.Or(iq == 0, P(iq - 1) < pos(u0, q, size)),
-                  z3.Or(pos(u0, q, size) <= P(iq), iq == n - 1))
+    return z3.And(z3.Or(iq == 0, P(iq - 1) < pos(u0, q, size)), pos(u0, q, size) <= P(iq))
 
 
 def systematic(ctx, arm):
@@ -46,11 +45,10 @@ def systematic(ctx, arm):
         st.assume(z3.ForAll([i], z3.Implies(z3.And(i >= 0, i < n), w.at(i) >= 0)))
         wr = st.new_arr(w)
         S = sums.total(st, w)
-        if arm == "in-tolerance":
-            st.assume(z3.And(S - 1 <= z3.RealVal(repr(SQRTEPS)), 1 - S <= z3.RealVal(repr(SQRTEPS))))
+        if arm == "sum-exactly-one":
+            st.assume(S == 1)
         else:
-            st.assume(z3.Or(S - 1 > z3.RealVal(repr(SQRTEPS)), 1 - S > z3.RealVal(repr(SQRTEPS))))
-            st.assume(S > 0)
+            st.assume(z3.And(S != 1, S > 0))
         info.update(size=size, n=n, w=w, wr=wr)
         return dict(args=[size, wr])
 
@@ -90,7 +88,7 @@ def systematic(ctx, arm):
         for (a, P) in st.ghost.get("sumarrs", []):
             W, Pw = a, P
         lst = st.ghost["sumarrs"]
-        W, Pw = lst[-1] if arm == "in-tolerance" else lst[-1]
+        W, Pw = lst[-1]
         n = info["n"]
         u0, shared = offset_of(st)
         q = z3.Int("q!p")
@@ -100,8 +98,7 @@ def systematic(ctx, arm):
              ("monotone", z3.ForAll([q], z3.Implies(z3.And(q >= 0, q < size - 1), idx.at(q) <= idx.at(q + 1)))),
              ("characterisation", z3.ForAll([q], z3.Implies(z3.And(q >= 0, q < size),
                                                             charac(st.ghost["final_P"], idx, q, u0, size, n))))]
-        if arm == "renormalised":
-            g.append(("renormalised-sums-to-one", st.ghost["final_P"](n - 1) == 1))
+        g.append(("comb-runs-over-weights-summing-to-one", st.ghost["final_P"](n - 1) == 1))
         return g
 
     def outer_rec(v):
@@ -232,7 +229,7 @@ def resampler(ctx, scheme):
 def run(ctx):
     from . import lean as _lean
     _lean.require(ctx, "Sums.lean", ['prefix_unique', 'sum_prefix_nonneg', 'sum_prefix_mono', 'sum_scale', 'sum_div_const'])
-    systematic(ctx, "in-tolerance")
+    systematic(ctx, "sum-exactly-one")
     systematic(ctx, "renormalised")
     counting_lemmas(ctx)
     resampler(ctx, "mult")
